@@ -39,7 +39,7 @@ def draw_nldf_params(rng):
     return {
         "kind": rng.choice(NLDF_KINDS),
         "sseed": rng.below(10**6),
-        "mol": rng.choice(TINY_MOLS + MANY_ATOM_MOLS),
+        "mol": rng.choice(MANY_ATOM_MOLS) if rng.chance(0.15) else rng.choice(TINY_MOLS),
         "nrad": rng.choice([5, 7, 8, 11, 13]),
         "nang": rng.choice([14, 26, 50]),
         "lmax": rng.choice([2, 3, 4, 6]),
